@@ -331,6 +331,8 @@ void h_ovni_thread_free(void)
 
 /* ======================================================================= attributes */
 #define ATTR_GATE __CPROVER_ensures(GATE_THREAD && !OLD(rthread.finished))
+/* a setter returns only if the store succeeded (a failed parson call is fatal, never silent) */
+#define ATTR_SET_OK __CPROVER_requires(g_parson_failed == 0) __CPROVER_ensures(g_parson_failed == 0)
 int c11_ovni_attr_has(const char *key)
 __CPROVER_requires(STR_PRE(key, g_l1))
 __CPROVER_assigns(g_parson_failed, g_died)
@@ -339,18 +341,22 @@ __CPROVER_ensures(RV == 0 || RV == 1);
 void c11_ovni_attr_set_double(const char *key, double num)
 __CPROVER_requires(STR_PRE(key, g_l1))
 __CPROVER_assigns(F_PARSON, g_died)
+ATTR_SET_OK
 ATTR_GATE;
 void c11_ovni_attr_set_boolean(const char *key, int value)
 __CPROVER_requires(STR_PRE(key, g_l1))
 __CPROVER_assigns(F_PARSON, g_died)
+ATTR_SET_OK
 ATTR_GATE;
 void c11_ovni_attr_set_str(const char *key, const char *value)
 __CPROVER_requires(STR_PRE(key, g_l1) && STR_PRE(value, g_l2))
 __CPROVER_assigns(F_PARSON, g_died)
+ATTR_SET_OK
 ATTR_GATE;
 void c11_ovni_attr_set_json(const char *key, const char *json)
 __CPROVER_requires(STR_PRE(key, g_l1) && STR_PRE(json, g_l2))
 __CPROVER_assigns(F_PARSON, g_died)
+ATTR_SET_OK
 ATTR_GATE;
 double c11_ovni_attr_get_double(const char *key)
 __CPROVER_requires(STR_PRE(key, g_l1))
